@@ -42,6 +42,20 @@ fn main() {
                 }
             }
         }
+        Some("refind") => {
+            // qv refind <finding-id> [n] [want]
+            let fid = args.get(2).unwrap_or_else(|| usage());
+            let n: u32 = args.get(3).and_then(|s| s.parse().ok()).unwrap_or(20000);
+            let want: usize = args.get(4).and_then(|s| s.parse().ok()).unwrap_or(3);
+            let fs = qv::runner::load_findings();
+            let f = fs.iter().find(|f| &f.id == fid && f.status == "known").unwrap_or_else(|| {
+                eprintln!("no known finding {fid}");
+                std::process::exit(2)
+            });
+            let prop = qv::props::all().into_iter().find(|p| p.id() == f.property).unwrap();
+            let k = qv::runner::refind(prop.as_ref(), f, seed, n, want);
+            println!("{k} reproducers saved");
+        }
         Some("explain") => {
             let path = args.get(2).unwrap_or_else(|| usage());
             let v: serde_json::Value = serde_json::from_str(&std::fs::read_to_string(path).unwrap()).unwrap();
